@@ -24,7 +24,7 @@ VARIABLES indexable,   \* the summary carries what index-based reading needs
           pos, cached, hist
 vars == <<indexable, pos, cached, hist>>
 
-Ops == {"info", "default", "idxfile", "idxlog", "scan"}
+Ops == {"info", "access", "default", "idxfile", "idxlog", "scan"}
 AllMsgs == [i \in 1 .. NChunks |-> i]
 From(p) == [i \in 1 .. NChunks - p |-> p + i]
 Full == [class |-> "ok", msgs |-> AllMsgs]
@@ -32,6 +32,7 @@ Full == [class |-> "ok", msgs |-> AllMsgs]
 (* what the operation returns on a fresh Reader *)
 Fresh(op) ==
   CASE op = "info" -> [class |-> "info", complete |-> TRUE]
+    [] op = "access" -> [class |-> "access", complete |-> TRUE]
     [] op = "idxlog" /\ ~indexable -> [class |-> "error", msgs |-> <<>>]
     [] OTHER -> Full
 
@@ -45,6 +46,11 @@ Do(op) ==
   /\ CASE op = "info" ->
             /\ pos' = AfterInfo /\ cached' = TRUE
             /\ hist' = Append(hist, [op |-> op, res |-> [class |-> "info", complete |-> TRUE]])       \* the unfiltered summary, cached
+       [] op = "access" ->
+            \* Info, then GetAttachmentReader / GetMetadata for every index entry: absolute seeks to the entries' offsets, one
+            \* record lexed at each; the stream is left behind whichever record was fetched last (or behind the summary)
+            /\ pos' \in 0 .. NChunks /\ cached' = TRUE
+            /\ hist' = Append(hist, [op |-> op, res |-> [class |-> "access", complete |-> TRUE]])
        [] op \in {"default", "idxfile", "idxlog"} ->
             /\ cached' = TRUE
             /\ IF indexable
@@ -68,14 +74,19 @@ ScanLike(h) == h.op = "scan" \/ (h.op \in {"default", "idxfile"} /\ ~indexable)
 
 (* C08: Info lists the whole summary whatever was done with the Reader before *)
 InfoStable == \A i \in DOMAIN hist : hist[i].op = "info" => hist[i].res = Fresh("info")
+(* C02: every indexed attachment and metadata record is retrievable from the location its entry gives, whatever was done
+   with the Reader before (in particular after a sequential read that ran to the end of the file) *)
+AccessStable == \A i \in DOMAIN hist : hist[i].op = "access" => hist[i].res = Fresh("access")
 (* C02 - C04: an index-based read does not depend on the Reader's history *)
-IndexedStable == \A i \in DOMAIN hist : (~ScanLike(hist[i]) /\ hist[i].op # "info") => hist[i].res = Fresh(hist[i].op)
+IndexedStable == \A i \in DOMAIN hist : (~ScanLike(hist[i]) /\ hist[i].op \notin {"info", "access"}) => hist[i].res = Fresh(hist[i].op)
 (* the first operation of a session behaves like a fresh Reader, whatever it is *)
 FirstStable == hist # <<>> => hist[1].res = Fresh(hist[1].op)
 (* NOT an invariant of the code (witness: ReaderSession_scan.cfg): an unindexed read that is not the first operation
    starts where the previous one left the stream and silently returns a suffix - recorded as a known finding *)
 ScanStable == \A i \in DOMAIN hist : ScanLike(hist[i]) => hist[i].res = Fresh(hist[i].op)
-(* ... and it is exactly a suffix, never anything else *)
+(* ... and it is exactly a suffix, never anything else (in this abstraction every message carries its own channel record;
+   in a real file the unindexed iterator also skips, silently, the messages behind the resume point whose channel record
+   lies before it: TraceIndexed.tla accepts a proper sub-sequence in file order under the same known finding) *)
 ScanSuffix == \A i \in DOMAIN hist : ScanLike(hist[i]) => \E p \in 0 .. NChunks : hist[i].res.msgs = From(p)
 
 Export == Len(hist) = MaxOps => PrintT(<<"SESSION", ToJson([indexable |-> indexable, ops |-> [i \in DOMAIN hist |-> hist[i].op]])>>)
